@@ -323,7 +323,9 @@ fn data_reply(rng: &mut Rng, sv: u64) -> Vec<Value> {
     if sv >= 1 { kinds.push(9); }
     if sv >= 2 { kinds.push(11); }
     let mut r = vec![pdu(3, sv, 8, 0)];
-    for _ in 0..rng.below(6) {
+    // (now and then a long reply: hundreds of payload PDUs between Cache Response and End of Data)
+    let n = if rng.chance(1, 12) { rng.range(64, 300) } else { rng.below(6) };
+    for _ in 0..n {
         let t = *rng.pick(&kinds);
         r.push(pdu(t, sv, true_len(t, sv), 0));
     }
